@@ -340,6 +340,8 @@ class Quantity:
             other = REGISTRY.parse_units(other)
         if not bool(self.units.same_dim(other)):
             raise DimensionalityError(self.units, other)
+        if self.units is other or self.units.sid.t.eq(other.sid.t):
+            return Quantity(self.magnitude * 1.0, other)  # the conversion factor between identical units is exactly 1
         return Quantity(self.magnitude * (self.units.scale / other.scale), other)
 
     def to_base_units(self):
